@@ -321,6 +321,36 @@ def createClient (env : Env) (cs : ClientState) : Outcome (ClientState × Store)
             .ok (cs, { recents := [⟨cs.head.rev, cs.head.number, signer⟩], pending := pending,
                        cons := [⟨cs.head.rev, cs.head.number, cs.head.time, cs.head.root⟩] })
 
+/-- `UpgradeClientProposal.ValidateBasic` (`ClientState.Validate` of the new state) + keeper `UpgradeClient` →
+`UpgradeState`: the store of the existing client `st` keeps its consensus states (only the earliest one is pruned
+when it has expired under the NEW trusting period), every recent-signer record is deleted, the new head's sealer is
+recorded, the pending list is the one the new head carries; then the new client state and the consensus state
+`⟨head.time, head.root⟩` of the new head's height are written (overwriting what was there). -/
+def upgradeClient (env : Env) (st : Store) (cs : ClientState) (bt : Nat) : Outcome (ClientState × Store) :=
+  if cs.epoch = 0 then .err "epoch-zero"
+  else if cs.chainId > gasCap then .err "chain-id"
+  else if cs.head.rev = 0 ∧ cs.head.number = 0 then .err "height-zero"
+  else
+  match validateBasic cs.head with
+  | .err e => .err e
+  | .panic p => .panic p
+  | .ok _ =>
+    if cs.head.number % cs.epoch ≠ 0 then .err "genesis-block"
+    else
+      let cons1 := match pruneTarget cs.trustingPeriod bt st.cons with
+        | none => st.cons
+        | some c => deleteCons st.cons c.rev c.num
+      match env.recover cs.chainId cs.head with
+      | none => .err "ecrecover"
+      | some signer =>
+        if signer ≠ toAddr cs.head.coinbase then .err "coinbase-mismatch"
+        else
+          match parseValidators cs.head.extra with
+          | none => .err "validator-bytes"
+          | some pending =>
+            .ok (cs, { recents := [⟨cs.head.rev, cs.head.number, signer⟩], pending := pending,
+                       cons := setCons cons1 ⟨cs.head.rev, cs.head.number, cs.head.time, cs.head.root⟩ })
+
 /-! ### several clients in one process, discarded executions
 
 Verification is a function of (committed client state, header) only: there is no process-wide state (no
@@ -338,6 +368,7 @@ inductive Op where
   | create (i : Nat) (cs0 : ClientState)
   | update (i : Nat) (bt : Nat) (h : Header)
   | dry (i : Nat) (bt : Nat) (h : Header)
+  | upgrade (i : Nat) (cs1 : ClientState) (bt : Nat)
 
 /-- verdict of the real call (`ok` / `err` / `panic` as seen by the caller) -/
 def verdict {α} : Outcome α → Outcome Unit
@@ -367,6 +398,14 @@ def applyOp (env : Env) (w : World) : Op → World × Outcome Unit
     match w i with
     | none => (w, .err "client-not-found")
     | some (cs, st) => (w, verdict (updateClient Fix.fixed env cs st bt h))
+  | .upgrade i cs1 bt =>
+    match w i with
+    | none => (w, .err "client-not-found")
+    | some (_, st) =>
+      match upgradeClient env st cs1 bt with
+      | .ok s => (w.set i s, .ok ())
+      | .err e => (w, .err e)
+      | .panic p => (w, .panic p)
 
 def runOps (env : Env) (w : World) (ops : List Op) : World := ops.foldl (fun w op => (applyOp env w op).1) w
 
@@ -375,5 +414,6 @@ def Op.touches (c : Nat) : Op → Bool
   | .create i _ => i == c
   | .update i _ _ => i == c
   | .dry _ _ _ => false
+  | .upgrade i _ _ => i == c
 
 end TM.Bsc
